@@ -1473,7 +1473,9 @@ RCP<const Boolean> Complement::contains(const RCP<const Basic> &a) const
 
 RCP<const Set> Complement::set_union(const RCP<const Set> &o) const
 {
-    // A' U C = (A n C')'
+    // (U \ A) u C = U \ (A \ C) holds only for C inside U
+    if (not is_a<UniversalSet>(*universe_))
+        return union_fallback(rcp_from_this_cast<const Set>(), o);
     RCP<const Set> ocomplement = o->set_complement(universe_);
     RCP<const Set> intersect
         = SymEngine::set_intersection({container_, ocomplement});
